@@ -1302,6 +1302,14 @@ func GenerateWrappers(pkg *packages.Package, cs *ContractSet) (string, []string)
 		paths = append(paths, p)
 	}
 	sort.Strings(paths)
+	// only what the generated wrappers actually mention
+	var used []string
+	for _, p := range paths {
+		if regexp.MustCompile(`(^|[^A-Za-z0-9_.])`+regexp.QuoteMeta(g.imports[p])+`\.`).Match(g.buf.Bytes()) {
+			used = append(used, p)
+		}
+	}
+	paths = used
 	if len(paths) > 0 {
 		out.WriteString("import (\n")
 		for _, p := range paths {
@@ -1331,6 +1339,12 @@ func (g *genCtx) compileAssign(c *Contract, a *AssignItem, si *sigInfo, pos toke
 	case strings.HasPrefix(t, "stream(") && strings.HasSuffix(t, ")"):
 		a.Kind = "stream"
 		cl.Text = t[7 : len(t)-1]
+	case strings.HasPrefix(t, "instream(") && strings.HasSuffix(t, ")"):
+		a.Kind = "instream" // the read position of a ghost stream only
+		cl.Text = t[9 : len(t)-1]
+	case strings.HasPrefix(t, "outstream(") && strings.HasSuffix(t, ")"):
+		a.Kind = "outstream" // what was written to a ghost stream only
+		cl.Text = t[10 : len(t)-1]
 	case strings.HasPrefix(t, "elems(") && strings.HasSuffix(t, ")"):
 		a.Kind = "elems"
 		cl.Text = t[6 : len(t)-1]
